@@ -743,6 +743,7 @@ func runC06(w *World, r *Report) {
 	shareRule(w, r, "C06.channel-state-restored-whole", "what a checkpoint holds of a channel (values, arrivals, the skipped mark) is all taken over on load: a node the run had decided not to run is not reported as an interrupt-before node after a resume", 8, "C05", "C05.channel-state")
 	shareRule(w, r, "C06.state-saved-by-its-owner-only", "an interrupt reports and saves a state only for the graph that owns one (the lookup stands under the runner having a state generator): a stateless nested graph does not save the parent's state as its own and continue on a detached copy", 1, "C11", "C11.survives")
 	shareRule(w, r, "C06.tool-interrupt-reaches-the-engine", "an interrupt raised inside a tool reaches the engine through errors.Is / errors.As on the tools node's error: every error the tools node builds around a tool's error wraps it with %w, in Invoke as in Stream", 1, "C13", "C13.percent-w")
+	shareRule(w, r, "C06.completed-siblings-fully-recorded", "what completed next to the interrupting task is recorded in full before the checkpoint is taken — values AND the control dependencies they satisfy: in all-predecessor mode a successor whose dependency was not recorded never becomes ready after the resume", 1, "C03", "C03.completion-fully-applied")
 
 	r.Rule("C06.bundled-state-serializable", "the local state types of the bundled flows (the type a flow hands to WithGenLocalState: react, host multi-agent) are registered with the checkpoint serializer in their package and have exported fields only: an interrupt in or next to an exported agent graph writes that state into the checkpoint, and a caller cannot register an unexported type", 2)
 	{
